@@ -193,6 +193,7 @@ def make_overlay(root: Path, crates_needed, use_real_indexmap=False, tokio_model
         patch.append('bytes = { path = "%s" }' % (VERIF / "models" / "bytes"))
     if tokio_model:
         patch.append('tokio = { path = "%s" }' % (VERIF / "models" / "tokio"))
+        patch.append('scoped-tls = { path = "%s" }' % (VERIF / "models" / "scoped-tls"))
     (root / "Cargo.toml").write_text(
         "[workspace]\nresolver = \"2\"\nmembers = [%s]\n[patch.crates-io]\n%s\n" % (members, "\n".join(patch)))
     (root / ".cargo").mkdir()
@@ -459,7 +460,7 @@ def main():
     if args.tier == "quick":
         hs = [h for h in hs if h["tier"] == "quick"]
     if args.only:
-        hs = [h for h in hs if args.only in h["name"]]
+        hs = [h for h in hs if any(o in h["name"] for o in args.only.split(","))]
     if not hs:
         log("no harnesses for", pid)
         print("INCONCLUSIVE property=%s reason=no-harness" % pid)
